@@ -439,9 +439,9 @@ def plan(tier, seed):
     from vlib import env
 
     decks = env.corpus_decks() + env.corpus_dir_packages()
-    n = 400 if tier == "quick" else 30000
+    n = 1600 if tier == "quick" else 30000
     units = [{"kind": "corpus", "paths": decks[i::8]} for i in range(8)]
-    per = 50 if tier == "quick" else 500
+    per = 100 if tier == "quick" else 500
     units += [{"kind": "gen", "lo": lo, "hi": min(n, lo + per)} for lo in range(0, n, per)]
     return units
 
